@@ -197,7 +197,9 @@ def gen_case(rng, n=None, max_rank=6):
     n = n or rng.choice([1, 2, 3, 3, 4, 4, 5, 5, 6])
     style = rng.random()
     N = 2 ** n
-    if style < 0.7:
+    if style < 0.12:
+        ranks = [rng.choice([0, 1, 2, 9, 10, 11, 12, 20, 100]) for _ in range(N)]     # ranks of mixed digit length
+    elif style < 0.7:
         ranks = [rng.randint(0, max_rank) for _ in range(N)]
     elif style < 0.85:
         ranks = [rng.choice([0, 0, 0, 7]) for _ in range(N)]
